@@ -178,4 +178,158 @@ def historyE (log : List Version) : Res (Option Store) := log.foldl mergeStepE (
 def historyL (batches : List (List Version)) : Option Store :=
   batches.foldl (fun st b => biMergeL st (b.map fun v => Bi v.ts v.stamp)) none
 
+
+/-! ### widened model (g4): publications as stamped rows, `Bi` with `'shift'` / day bumps, string selectors -/
+
+/-- the as-of fold of `specRead`, stated on the published rows themselves (merge order): what an as-of read must return
+    when the versions are arbitrary stamped frames (`Bi` with a bump or `'shift'` gives every row its own stamp) -/
+def specReadR (rows : Store) (asof : Option Int) : TS :=
+  let pubs := match asof with
+    | some T => rows.filter (fun r => decide (r.stamp ≤ T))
+    | none => rows
+  (dates pubs).map fun d => (d, lastVal (group d pubs))
+
+/-- `specFirst` on published rows -/
+def specFirstR (rows : Store) (asof : Option Int) : TS :=
+  let pubs := match asof with
+    | some T => rows.filter (fun r => decide (r.stamp ≤ T))
+    | none => rows
+  (dates pubs).map fun d => (d, firstVal (group d pubs))
+
+/-- the store after merging stamped frames one by one, starting from `None` (`history` = the case `Bi v.ts v.stamp`) -/
+def historyF (frames : List Store) : Option Store :=
+  frames.foldl (fun st f => some (biMerge st f)) none
+
+/-- `Bi(ts, 'shift')` (_bitemporal.py:327-329): row `i` is stamped with the date of row `i+1`, the last row with `now`.
+    (`ts = []` is kept out: the real code then CREATES a row with index `0`.) -/
+def BiShift (ts : TS) (now : Int) : Store :=
+  List.zipWith (fun p s => ⟨p.1, s, p.2⟩) ts ((ts.map (·.1)).drop 1 ++ [now])
+
+/-- `Bi(ts, bump)` (lines 330-333) for a bump of a fixed length `delta` (`'3d'`, `3`, `'1w'`, `'-1d'`; business-day and
+    month bumps need the calendar of C04/C09 and are not modelled): the date plus the bump, capped at `now` -/
+def BiBump (ts : TS) (delta now : Int) : Store := ts.map fun p => ⟨p.1, min (p.1 + delta) now, p.2⟩
+
+/-- string selectors of `bi_read` (`what='last'` / `'first'`): pandas `GroupBy.last()` / `.first()` -/
+inductive Sel where
+  | last | first
+  deriving Repr, DecidableEq, Inhabited
+
+/-- `GroupBy.last()`: the last non-NaN value of the group (NaN if there is none) -/
+def lastNonNan (v : Store) : Option Int := (v.reverse.find? (·.val.isSome)).bind (·.val)
+
+/-- `GroupBy.first()`: the first non-NaN value of the group -/
+def firstNonNan (v : Store) : Option Int := (v.find? (·.val.isSome)).bind (·.val)
+
+def Sel.apply : Sel → Store → Option Int
+  | .last, v => lastNonNan v
+  | .first, v => firstNonNan v
+
+/-- `bi_read(df, asof, what)` for `what = 'last'` / `'first'` (lines 57-66: `gb.apply('last')` = `gb.last()`) -/
+def biReadS (df : Store) (asof : Option Int) (sel : Sel) : TS :=
+  let df := match asof with
+    | some T => df.filter (fun r => decide (r.stamp ≤ T))
+    | none => df
+  let sorted := sortStamp df
+  (dates sorted).map fun d => (d, sel.apply (group d sorted))
+
+/-- number of leading NaN rows of a group: the integer selector that `'first'` amounts to -/
+def leadingNan (v : Store) : Nat := (v.takeWhile (·.val.isNone)).length
+
+/-! ### multi-column frames (g4): several value columns sharing the index and the stamp -/
+
+structure RowF where
+  date : Int
+  stamp : Int
+  vals : List (Option Int)
+  deriving Repr, DecidableEq, Inhabited
+
+abbrev StoreF := List RowF
+
+/-- a version of a frame: (date, cells) rows -/
+abbrev TSF := List (Int × List (Option Int))
+
+def BiF (ts : TSF) (stamp : Int) : StoreF := ts.map fun p => ⟨p.1, stamp, p.2⟩
+
+def sortStampF (rows : StoreF) : StoreF := rows.mergeSort fun a b => decide (a.stamp ≤ b.stamp)
+
+def datesF (rows : StoreF) : List Int := ((rows.map (·.date)).eraseDups).mergeSort (fun a b => decide (a ≤ b))
+
+def groupF (d : Int) (rows : StoreF) : StoreF := rows.filter (·.date == d)
+
+/-- `DataFrame.ffill()` column by column, started with a carried row -/
+def ffillFromF (prev : List (Option Int)) : List (List (Option Int)) → List (List (Option Int))
+  | [] => []
+  | v :: vs => (List.zipWith Option.or v prev) :: ffillFromF (List.zipWith Option.or v prev) vs
+
+/-- the first row has nothing to be filled from -/
+def ffillF : List (List (Option Int)) → List (List (Option Int))
+  | [] => []
+  | v :: vs => v :: ffillFromF v vs
+
+def keepLastF : StoreF → StoreF
+  | [] => []
+  | r :: rest => if rest.any (·.stamp == r.stamp) then keepLastF rest else r :: keepLastF rest
+
+/-- `repeats.min(axis=1)` (line 152): a row is a repeat only if EVERY column repeats -/
+def allRepeat (new old : List (Option Int)) : Bool := (List.zipWith npEq new old).all id
+
+/-- `_drop_repeats` on a frame with several value columns: the mask is per ROW, the rows kept are the RAW rows of `d`
+    (not the forward-filled ones) -/
+def dropRepeatsF (d : StoreF) : StoreF :=
+  let noUpdated := ffillF (d.map (·.vals))                     -- 148
+  let oldValues := noUpdated.dropLast                          -- 149
+  let newValues := noUpdated.drop 1                            -- 150
+  let repeats := List.zipWith allRepeat newValues oldValues    -- 151, 152 (.min(axis=1))
+  let keep := true :: repeats.map (!·)
+  let res := ((d.zip keep).filter (·.2)).map (·.1)             -- 152
+  keepLastF res                                                -- 153
+
+def mergeFramesF (bis : List StoreF) : StoreF :=
+  let sorted := sortStampF bis.flatten
+  (datesF sorted).flatMap fun d => dropRepeatsF (groupF d sorted)
+
+def biMergeF (old : Option StoreF) (new : StoreF) : StoreF :=
+  match old with
+  | none => new
+  | some o => mergeFramesF [o, new]
+
+def nthF (n : Int) (v : StoreF) : Option RowF :=
+  if 0 ≤ n then v[min n.toNat (v.length - 1)]?
+  else v[((v.length : Int) + max n (-(v.length : Int))).toNat]?
+
+/-- `bi_read` on a frame for an integer `what`: the n-th RAW row per date -/
+def biReadF (df : StoreF) (asof : Option Int) (what : Int) : TSF :=
+  let df := match asof with
+    | some T => df.filter (fun r => decide (r.stamp ≤ T))
+    | none => df
+  let sorted := sortStampF df
+  (datesF sorted).map fun d => (d, ((nthF what (groupF d sorted)).map (·.vals)).getD [])
+
+/-- column `c` of a frame as a single-column store -/
+def colF (c : Nat) (rows : StoreF) : Store := rows.map fun r => ⟨r.date, r.stamp, (r.vals[c]?).join⟩
+
+/-- `bi_read(frame, asof, 'last' | 'first')`: `GroupBy.last()` / `.first()` work column by column -/
+def biReadFS (width : Nat) (df : StoreF) (asof : Option Int) (sel : Sel) : TSF :=
+  let df := match asof with
+    | some T => df.filter (fun r => decide (r.stamp ≤ T))
+    | none => df
+  let sorted := sortStampF df
+  (datesF sorted).map fun d => (d, (List.range width).map fun c => sel.apply (colF c (groupF d sorted)))
+
+/-- the store after merging frame versions one by one -/
+def historyFF (log : List (Int × TSF)) : Option StoreF :=
+  log.foldl (fun st v => some (biMergeF st (BiF v.2 v.1))) none
+
+/-- `bi_merge` of two frames with the rejected input (both empty: `pd.concat([])` raises) -/
+def biMergeFE (old : Option StoreF) (new : StoreF) : Res StoreF :=
+  match old with
+  | none => .ok new
+  | some o => if (o ++ new).isEmpty then .error .value else .ok (biMergeF (some o) new)
+
+/-- every published frame row, in merge order -/
+def logRowsF (log : List (Int × TSF)) : StoreF := log.flatMap fun v => BiF v.2 v.1
+
+/-- the one-column frame of a series -/
+def embRow (r : Row) : RowF := ⟨r.date, r.stamp, [r.val]⟩
+
 end Pyg.Bitemp
